@@ -339,6 +339,10 @@ def jobs(tier):
     add('h_tempo_order', K=2, q=[1, 2], order=list(order), first_at_zero=False)
   for order in itertools.permutations(range(3)):
     add('h_tempo_order', K=3, q=[2, 0, 3], order=list(order))
+  # a tempo map that returns to its initial value, and one that restates it
+  add('h_tempo_order', K=3, q=[1, 0, 1], order=[0, 1, 2])
+  add('h_tempo_order', K=3, q=[1, 0, 1], order=[2, 0, 1])
+  add('h_tempo_order', K=3, q=[1, 1, 0], order=[0, 1, 2])
   add('h_import', I=1, N=2)
   add('h_import', I=2, N=1)
   add('h_roundtrip', N=2, budget=900)
